@@ -825,6 +825,10 @@ func (dru *dirRepoUpload) Digest() digest.Digest {
 func (dru *dirRepoUpload) Verify(expect digest.Digest) error {
 	dru.mu.Lock()
 	defer dru.mu.Unlock()
+	// an upload created for a specific digest cannot be completed with another, Close would fail after the content was accepted
+	if dru.expect != "" && dru.expect != expect {
+		return fmt.Errorf("digest mismatch, upload was created for %s, received %s", dru.expect, expect)
+	}
 	if dru.d.Digest() == expect {
 		return nil
 	}
